@@ -269,7 +269,7 @@ pub fn run(ctx: &mut Ctx) {
     // --- identities containing NUL bytes, trailing blanks or newlines, non-UTF-8 bytes (hashed exactly as given)
     {
         let mut pl = ctx.prng("nul_ids");
-        let ids = [b"Bob\0".to_vec(), b"\0Bob".to_vec(), b"Bo\0b".to_vec(), vec![0u8], vec![0u8; 4], b"Bob\0\0".to_vec(), b"Bob ".to_vec(), b" Bob".to_vec(), b"Bob\n".to_vec(), vec![0xffu8, 0xfe, 0x80]];
+        let ids = [b"Bob\0".to_vec(), b"\0Bob".to_vec(), b"Bo\0b".to_vec(), vec![0u8], vec![0u8; 4], b"Bob\0\0".to_vec(), b"Bob ".to_vec(), b" Bob".to_vec(), b"Bob\n".to_vec(), vec![0xffu8, 0xfe, 0x80], b"Alice\x01".to_vec(), b"Alice\x02".to_vec(), b"Alice\x03".to_vec(), vec![1u8], vec![3u8]];
         for k in 0..ids.len() {
             let sub = pl.next();
             if !ctx.mine(k as u64) {
